@@ -1,7 +1,7 @@
 //! C12 — new mnemonics carry exactly the OS entropy (library part; the CLI part runs under an LD_PRELOAD shim).
 //! The scripted source is a continuous byte stream, so the oracle does not depend on how many requests of which size
 //! an implementation makes: the entropy must be the bytes handed out, in order, and a delivered failure must be an error.
-use crate::entropy::{with_script_on_fresh_thread as with_script, ALL_HANDED};
+use crate::entropy::{with_failures_on_fresh_thread, with_script_on_fresh_thread as with_script, ALL_HANDED};
 use explore::{filler_bytes, guard, panic_site, Ctx};
 use hdwallet::mnemonic::{Language, Mnemonic};
 use refmodel::bip39;
@@ -40,12 +40,45 @@ pub fn check_random(ctx: &Ctx, sweep: &str, i: u64, len: usize, pat: &str, patte
 pub fn run(ctx: &Ctx) {
     let mut pats: Vec<(String, Vec<u8>)> = patterns(ctx.seed).into_iter().map(|(n, b)| (n.to_string(), b)).collect();
     if ctx.thorough() { for b in 0..=255u8 { pats.push((format!("fill-{:02x}", b), vec![b; 64])); pats.push((format!("ramp-from-{:02x}", b), (0..64u8).map(|i| b.wrapping_add(i.wrapping_mul(3))).collect())); } }
+    ctx.sweep("failure-injection", "request k of the source fails (k = 0..=3, persistent and one-shot) for every length 0..=40: a delivered failure must be an error", 41 * 8, |i| {
+        check_random(ctx, "failure-injection", i, (i / 8) as usize, "source-fails", (1..=251u8).collect(), Some(((i % 8) / 2) as usize), i % 2 == 1)
+    });
+    // the errno a failure carries: one-shot and persistent failures reporting each of EPERM, EINTR, EIO, EAGAIN, ENOMEM,
+    // EFAULT, EINVAL, ENOSYS. A failure that is final must be an error; code that treats one errno as "try again" may go
+    // on - then what it prints must still be made of bytes the source handed out (checked by failure-windows below)
+    let errnos: [(i32, &str); 8] = [(1, "EPERM"), (4, "EINTR"), (5, "EIO"), (11, "EAGAIN"), (12, "ENOMEM"), (14, "EFAULT"), (22, "EINVAL"), (38, "ENOSYS")];
+    let windows: [usize; 9] = [1, 2, 3, 8, 15, 16, 17, 64, 1000];
+    let sup = [12usize, 15, 18, 21, 24];
+    ctx.sweep("failure-windows", "for each of 8 errno values (EPERM, EINTR, EIO, EAGAIN, ENOMEM, EFAULT, EINVAL, ENOSYS): requests k .. k+n-1 of the source fail with it (k = 0, 1; n = 1, 2, 3, 8, 15, 16, 17, 64, 1000) and later ones are answered, for the five supported lengths: generation ends with an error, or - where the implementation takes that errno as `try again` - with a phrase whose entropy is a run of the bytes the source handed out; never with a phrase made of anything else (an untouched buffer)", (errnos.len() * windows.len() * 2 * sup.len()) as u64, |i| {
+        let len = sup[i as usize % 5]; let k = (i as usize / 5) % 2; let n = windows[(i as usize / 10) % windows.len()]; let (errno, en) = errnos[i as usize / (10 * windows.len())];
+        let pattern: Vec<u8> = (1..=251u8).collect();
+        let replay = json!({"sweep": "failure-windows", "index": i, "entry": "Mnemonic::random", "length": len, "entropy_stream_pattern": "01 02 .. fb (cyclic)", "failing_requests": format!("{k}..{}", k + n), "errno": en});
+        ctx.sample("failure-windows", || replay.clone());
+        let (got, requests, handed) = with_failures_on_fresh_thread(pattern, Some(k), false, Some(n), errno, || guard(|| Mnemonic::random(Language::English, len).map(|m| m.to_phrase())));
+        let delivered = requests.iter().filter(|r| !r.1).count(); let shape = format!("{en}:first-failing-request={k}:window={}", if n >= 1000 { "1000".to_string() } else if n >= 15 { "15..=64".into() } else { "1..=8".into() });
+        match got {
+            Err(p) => { ctx.eval(format!("{shape}:panic")); ctx.panic_violation(format!("{P}:random:failure-window:{en}:panic@{}", panic_site(&p)), format!("generation panics: {p}"), replay) }
+            Ok(Err(_)) => { ctx.eval(format!("{shape}:error,failures-delivered={}", delivered.min(2))); if delivered == 0 { ctx.violation(format!("{P}:random:failure-window:{en}:error-without-failure"), "generation fails although every request it made was answered", replay) } }
+            Ok(Ok(phrase)) => { ctx.eval(format!("{shape}:phrase,failures-delivered={}", delivered.min(2)));
+                let toks: Vec<&str> = phrase.split(' ').collect();
+                match bip39::tokens_to_entropy(&toks) {
+                    Err(e) => ctx.violation(format!("{P}:random:failure-window:{en}:invalid-phrase"), format!("generated phrase is not valid BIP-39: {e:?}"), replay),
+                    Ok(ent) => if toks.len() != len { ctx.violation(format!("{P}:random:failure-window:{en}:wrong-length"), format!("{} words generated for requested length {len}", toks.len()), replay) }
+                        else if !handed.windows(ent.len()).any(|w| w == ent.as_slice()) {
+                            if ALL_HANDED.lock().map(|a| a.windows(ent.len()).any(|w| w == ent.as_slice())).unwrap_or(false) { ctx.eval(format!("{shape}:served-from-bytes-fetched-during-an-earlier-case")) }
+                            else { ctx.violation(format!("{P}:random:failure-window:{en}:entropy-not-from-source"), format!("after {delivered} failures reported with {en} a phrase is produced whose entropy {} is not a run of the bytes the source handed out ({})", explore::hex(&ent), if handed.is_empty() { "it handed out none".to_string() } else { explore::hex(&handed) }), replay) } }
+                        // a final failure (anything but the two `try again` errnos) followed by a phrase is a failure swallowed
+                        else if delivered > 0 && errno != 4 && errno != 11 { ctx.violation(format!("{P}:random:failure-window:{en}:phrase-despite-failure"), format!("a phrase is produced although the entropy source reported failure ({en})"), replay) }
+                }
+            }
+        }
+    });
+    // (the pattern sweep comes after the failure sweeps: the process-wide record of handed bytes, which excuses entropy served
+    // from a pool filled during an earlier case, must not yet contain the constant patterns when a swallowed failure would
+    // surface as an untouched, all-zero buffer)
     ctx.sweep("length-x-pattern", "requested lengths 0..=40 x byte patterns (00, ff, counting, its complement, filler; thorough: every fill byte and 256 ramps) streamed by the scripted source", (41 * pats.len()) as u64, |i| {
         let len = (i as usize) / pats.len(); let (pn, pb) = &pats[i as usize % pats.len()];
         check_random(ctx, "length-x-pattern", i, len, pn, pb.clone(), None, false);
-    });
-    ctx.sweep("failure-injection", "request k of the source fails (k = 0..=3, persistent and one-shot) for every length 0..=40: a delivered failure must be an error", 41 * 8, |i| {
-        check_random(ctx, "failure-injection", i, (i / 8) as usize, "source-fails", (1..=251u8).collect(), Some(((i % 8) / 2) as usize), i % 2 == 1)
     });
     let bits: Vec<(usize, usize, bool)> = [12usize, 15, 18, 21, 24].iter().flat_map(|l| (0..l * 4 / 3 * 8).flat_map(move |b| [(*l, b, false), (*l, b, true)])).collect();
     ctx.sweep("single-bit-entropy", "every single set / cleared bit of the entropy streamed by the source, five supported lengths", bits.len() as u64, |i| {
